@@ -152,6 +152,29 @@ def bytesref_ctor(F, hty):
     return F.insts[real[0]] if len(real) == 1 else None
 
 
+def is_misaligned_test(f, ptr):
+    """`the address of ptr is not a multiple of 8`: align_offset(8) != 0 (std: 0 exactly when aligned, for a byte pointer and a power of
+    two), or the address itself `% 8 != 0` / `& 7 != 0`"""
+    if not (isinstance(f, tuple) and f[0] == "cmp" and f[1] == "Ne" and G.strip(f[3]) == ("c", 0)):
+        return False
+    e = G.strip(f[2])
+    if e == ("align_offset", ptr, ("c", ALIGN)):
+        return True
+
+    def is_addr(t):
+        t = G.strip(t)
+        if t[0] == "cast" and t[1] in ("PointerExposeProvenance", "Transmute") and len(t) > 3 and t[3] == "usize":
+            return G.strip(t[2]) == ptr
+        if t[0] == "call" and G.cn(t[1]) in ("core::ptr::const_ptr::<impl *const T>::addr", "core::ptr::const_ptr::<impl *const T>::expose_provenance") and len(t[2]) == 1:
+            return G.strip(t[2][0]) == ptr
+        return False
+    if e[0] == "bin" and e[1] == "Rem" and G.strip(e[3]) == ("c", ALIGN) and is_addr(e[2]):
+        return True
+    if e[0] == "bin" and e[1] == "BitAnd" and G.strip(e[3]) == ("c", ALIGN - 1) and is_addr(e[2]):
+        return True
+    return False
+
+
 def check_try_from(ctx, F, hty):
     inst = bytesref_ctor(F, hty)
     lab = "try_from<%s>" % short(hty)
@@ -165,7 +188,7 @@ def check_try_from(ctx, F, hty):
     want = [
         ("ShorterThanHeader", lambda f: G.entails([f], ("cmp", "Lt", ("len", slice_arg), ("c", hs))) is not None,
          "len < size_of::<H>() (%d)" % hs),
-        ("WrongAlignment", lambda f: f == ("cmp", "Ne", ("align_offset", ("asptr", slice_arg), ("c", ALIGN)), ("c", 0)),
+        ("WrongAlignment", lambda f: is_misaligned_test(f, ("asptr", slice_arg)),
          "as_ptr().align_offset(8) != 0"),
         ("MissingPadding", lambda f: f[0] == "cmp" and f[1] == "Ne" and G.strip(f[3]) == ("c", 0) and
          G.lin(f[2]).key() == G.lin(("bin", "Rem", ("len", slice_arg), ("c", ALIGN), "usize")).key(), "len % 8 != 0"),
@@ -461,7 +484,7 @@ def run(ctx):
             return True          # the inherent validating constructor (same role, decided by B1 like try_from)
         # a closure written inside try_from (e.g. `check(..).map(|()| Self {..})`) is part of try_from
         root = F.fns.get(f.get("root")) if f.get("closure") and f.get("root") else None
-        return root is not None and root.get("name") == "try_from" and root.get("impl_trait") == "core::convert::TryFrom"
+        return root is not None and (root.get("path") in ctor_paths or (root.get("name") == "try_from" and root.get("impl_trait") == "core::convert::TryFrom"))
     bad = [k for (k, f) in ctors if not in_try_from(f) and not f.get("derived")]
     ctx.check(len(ctors) >= 1 and not bad, "B2", "BytesRef:constructors",
               "BytesRef {..} is constructed only in TryFrom::try_from (and its derived Clone)", "",
